@@ -127,6 +127,7 @@ def replacing_yield(case):
 
 def _sig_replace(w):
     return (_reason(w) in ('accepted:group-misses-subtask-or-order', 'accepted:duplicate-definition',
+                           'accepted:group-misses-subtask-or-order@load_tasks',
                            'accepted:subtask-without-group')
             and replacing_yield(w['case']))
 
@@ -234,7 +235,8 @@ EDGE_VALUES = [['none'], ['bool', True], ['bool', False], ['int', 0], ['int', 1]
                ['dict', [['k', None]]], ['callable'], ['object']]
 ACTIONS = ['actions', ['list', ['act']]]
 NAMES = ['a', 'b', 'c', 'd', 'e', 'f']
-ODD_NAMES = ['-x', 'a=b', 'a:b', 'list', 'run', 'help', 'x y', 'é']
+ODD_NAMES = ['-x', 'a=b', 'a:b', 'list', 'run', 'help', 'x y', 'é', 'a*', '*.py', 'q?', 'r[1]', '*']
+GLOB_SUBNAMES = ['*.py', 'docs/*.rst', '*', 'a*', 's?x', 'q[1]', '[ab]', 'x.py']
 TARGETS = ['t1', 't2', 't3']
 FILES = ['t1', 't2', 'f1', 'f2']
 
@@ -250,7 +252,7 @@ def valid_value(rng, attr, names):
     if attr == 'task_dep':
         items = pick(names, 0, 2)
         if rng.random() < 0.25:
-            items.append(rng.choice(['*', 'a*', '*:s0', 'b*', 'zz*', (rng.choice(names) if names else 'q') + '*']))
+            items.append(rng.choice(['*', 'a*', '*:s0', 'b*', 'zz*', (rng.choice([n for n in names if '?' not in n and '[' not in n] or ['q'])) + '*']))
         return seq(items)
     if attr in ('calc_dep', 'setup'):
         return seq(pick(names, 0, 2))
@@ -319,7 +321,8 @@ def plan_case(rng):
                       'shape': rng.choice(['subs', 'subs', 'subs+attrs', 'basenames', 'mixed'])})
     names = []
     for p in plans:
-        p['subnames'] = rng.sample(['s0', 's1', 's2', 's3', 'a', 'z'], p['subs']) if p['kind'] == 'gen' else []
+        pool_sub = ['s0', 's1', 's2', 's3', 'a', 'z'] if rng.random() < 0.8 else GLOB_SUBNAMES + ['s0', 'z']
+        p['subnames'] = rng.sample(pool_sub, p['subs']) if p['kind'] == 'gen' else []
         if p['kind'] in ('dict', 'task', 'emptygen'):
             names.append(p['name'])
         elif p['kind'] == 'gen':
@@ -495,9 +498,12 @@ def seed_defect(rng, case, names, defect):
         set_attr(d, 'basename', ['str', rng.choice(['list', 'run', 'info', 'forget'])])
     elif defect == 'yield-other' and gens:
         g = rng.choice(gens)
-        g['result']['items'].insert(rng.randint(0, len(g['result']['items'])), {'k': 'other'})
+        item = {'k': 'other', 'py': rng.choice(L.OTHER_KINDS)}
+        if rng.random() < 0.3:
+            item = {'k': 'nested', 'items': [item]}
+        g['result']['items'].insert(rng.randint(0, len(g['result']['items'])), item)
     elif defect == 'result-other':
-        rng.choice(case['creators'])['result'] = {'k': 'other'}
+        rng.choice(case['creators'])['result'] = {'k': 'other', 'py': rng.choice([k for k in L.OTHER_KINDS if k != 'none'])}
     elif defect == 'eq-in-name':
         if dicts and rng.random() < 0.6:
             c, how, d = rng.choice(dicts)
@@ -602,6 +608,34 @@ def exhaustive_cases():
                         out.append(({'creators': [copy.deepcopy(helper), copy.deepcopy(helper_y),
                                                   {'name': 'f', 'line': 5, 'kind': 'func', 'result': res}]},
                                     ['exhaustive:refs']))
+    # non-dict yields / results of every top-level type: direct, nested, after a valid dict, before one
+    vd = lambda n: {'k': 'dict', 'd': [copy.deepcopy(ACTIONS), ['name', ['str', n]]]}
+    for kind in L.OTHER_KINDS:
+        o = {'k': 'other', 'py': kind}
+        for items in ([o], [{'k': 'nested', 'items': [o]}], [vd('s'), o], [o, vd('s')],
+                      [vd('s'), {'k': 'nested', 'items': [vd('t'), {'k': 'nested', 'items': [o]}]}]):
+            out.append(({'creators': [{'name': 'g', 'line': 5, 'kind': 'func',
+                                       'result': {'k': 'gen', 'items': copy.deepcopy(items)}}]}, ['exhaustive:other']))
+        if kind != 'none':
+            out.append(({'creators': [{'name': 'g', 'line': 5, 'kind': 'func', 'result': {'k': 'other', 'py': kind}}]},
+                        ['exhaustive:other']))
+    # names with glob metacharacters: sub-task names (every position among plain ones), basenames, references to them
+    for gname in GLOB_SUBNAMES:
+        for subs in ([gname], [gname, 'b'], ['b', gname], ['c', gname, 'b'], [gname, 'x.py', 'b'], ['x.py', gname]):
+            out.append(({'creators': [{'name': 'g', 'line': 5, 'kind': 'func',
+                                       'result': {'k': 'gen', 'items': [vd(n) for n in subs]}}]},
+                        ['exhaustive:glob-names']))
+        out.append(({'creators': [{'name': 'g', 'line': 5, 'kind': 'func', 'result': {'k': 'gen', 'items': [
+            {'k': 'dict', 'd': [copy.deepcopy(ACTIONS), ['basename', ['str', gname]]]},
+            {'k': 'dict', 'd': [copy.deepcopy(ACTIONS), ['basename', ['str', 'p']]]}]}},
+            {'name': 'h', 'line': 7, 'kind': 'func', 'result': {'k': 'dict', 'd': [copy.deepcopy(ACTIONS), ['basename', ['str', 'h' + gname]]]}}]},
+            ['exhaustive:glob-names']))
+        if '?' not in gname and '[' not in gname:
+            out.append(({'creators': [{'name': 'g', 'line': 5, 'kind': 'func',
+                                       'result': {'k': 'gen', 'items': [vd(gname), vd('b')]}},
+                                      {'name': 'h', 'line': 7, 'kind': 'func', 'result': {'k': 'dict', 'd': [
+                                          copy.deepcopy(ACTIONS), ['task_dep', ['list', ['g:' + gname]]]]}}]},
+                        ['exhaustive:glob-names']))
     # duplicate targets: inside one task, between a task and a sub-task, between two sub-tasks, group attrs / sub-task
     T1 = ['targets', ['list', ['t1']]]
     sub = lambda n, *extra: {'k': 'dict', 'd': [copy.deepcopy(ACTIONS), ['name', ['str', n]]] + [copy.deepcopy(e) for e in extra]}
